@@ -194,6 +194,7 @@ func TestCheck(t *testing.T) {
 		default:
 			run.Count("cases_inconclusive_watchdog", 1)
 			if os.Getenv("VERIF_DEBUG") != "" {
+				fmt.Printf("DEBUG %s handle-errors=%v\n", name, s.Stats.HandleErrs)
 				for _, i := range s.Honest() {
 					b := s.Replicas[i].BFT
 					fmt.Printf("DEBUG %s sc=%s com=%s byz=%v r%d view=(rh%d,r%d,%s) lock=%v committed=%v led=%d faulty=%d events=%d now=%d healed=%d\n", name, sc, com.Name, c.Cfg.Byzantine, i, b.RootHeight, b.Round, b.Phase, b.HighQC != nil, s.Replicas[i].Height() > 1, led, faulty, s.Events, s.Now, s.HealedAt)
